@@ -69,6 +69,7 @@ func behSuite(tier string) []*families.Case {
 		cs = append(cs, families.F8(3, 3, []string{"", "i", "s", "n", "ns"})...)
 		cs = append(cs, families.F10(4, 4, []string{"", "i"})...)
 		cs = append(cs, families.F11(6, 5, []string{"", "s", "is"})...)
+		cs = append(cs, families.F12(4, spec.AllVariants)...)
 		h := append(families.F1(1, 3, 0, nil), families.F4(0, nil)...)
 		h = append(h, families.F7(2, 0, nil)...)
 		cs = append(cs, families.Hostile(h, 4, []string{"", "is", "n"})...)
@@ -83,6 +84,7 @@ func behSuite(tier string) []*families.Case {
 		cs = append(cs, families.F8(3, 3, []string{"", "n"})...)
 		cs = append(cs, families.F10(4, 4, []string{""})...)
 		cs = append(cs, families.F11(4, 5, []string{"", "s"})...)
+		cs = append(cs, families.F12(3, []string{"", "i", "n"})...)
 		h := append(families.F1(1, 2, 0, nil), families.F4(0, nil)[:40]...)
 		cs = append(cs, families.Hostile(h, 3, []string{"", "is"})...)
 	}
